@@ -14,6 +14,9 @@ pub(crate) struct LoopState {
     // tells us if we need to end capturing.
     pub(crate) current_recursion_jump: Option<(u32, bool)>,
     pub(crate) object: Arc<Loop>,
+    // did the iterator yield at least one item?  Decides if the `else`
+    // block of the loop runs.
+    iterated: bool,
 
     // Depending on if adjacent_loop_items is enabled or not, the iterator
     // is stored either on the loop state or in the loop object.  This is
@@ -41,6 +44,7 @@ impl LoopState {
         LoopState {
             with_loop_var,
             current_recursion_jump,
+            iterated: false,
             object: Arc::new(Loop {
                 idx: AtomicUsize::new(!0usize),
                 len,
@@ -56,19 +60,19 @@ impl LoopState {
     }
 
     pub fn did_not_iterate(&self) -> bool {
-        self.object.idx.load(Ordering::Relaxed) == 0
+        !self.iterated
     }
 
     pub fn next(&mut self) -> Option<Value> {
         self.object.idx.fetch_add(1, Ordering::Relaxed);
         #[cfg(feature = "adjacent_loop_items")]
-        {
-            self.object.iter.lock().unwrap().next()
-        }
+        let rv = self.object.iter.lock().unwrap().next();
         #[cfg(not(feature = "adjacent_loop_items"))]
-        {
-            self.iter.next()
+        let rv = self.iter.next();
+        if rv.is_some() {
+            self.iterated = true;
         }
+        rv
     }
 }
 
